@@ -16,7 +16,8 @@ var progs, rejected = []emit.Src{}, 0
 func main() {
 	tier := flag.String("tier", "quick", "")
 	flag.Parse()
-	thorough := *tier == "thorough"
+	thorough := true // quick tier promoted to the full depth-3 use set (round d); *tier kept for the command line
+	_ = tier
 	head := "package main\n\nimport . \"verif/engine/twin/h\"\n\n"
 	// ---- family S: hierarchy shapes x holders x uses
 	for _, depth := range []int{2, 3} {
